@@ -71,7 +71,7 @@ func c07original() (err error, code string, wantStatus int, detail json.RawMessa
 	if s, ok := c07statusOf[code]; ok {
 		wantStatus = s
 	}
-	switch verifChoose("wrapper", 3) {
+	switch w := verifChoose("wrapper", 4); w {
 	case 0:
 		err = base
 	case 1:
@@ -80,6 +80,10 @@ func c07original() (err error, code string, wantStatus int, detail json.RawMessa
 		statuses := []int{400, 404, 409, 416, 418, 429, 500, 503, 599}
 		st := statuses[verifChoose("wrapStatus", len(statuses))]
 		err = ociregistry.NewHTTPError(base, st, nil, nil)
+		if w == 3 {
+			// the status wrapper is itself wrapped (as ociserver and ociclient do with %w)
+			err = fmt.Errorf("cannot copy blob data: %w", err)
+		}
 		if _, ok := c07statusOf[code]; !ok {
 			wantStatus = st
 		}
